@@ -4,8 +4,8 @@
    entry points, replicas, compaction), Model/TrackerGhost.v (ghost history).  Statement as a
    decision procedure on observations: Judge/E3.v [spec_c08]. *)
 From Coq Require Import List ZArith Bool Lia.
-From FB Require Import Lib.Eqb Model.Tracker Model.TrackerWire Judge.E3
-  Proofs.TrackerProofs Proofs.E3SpecProofs.
+From FB Require Import Lib.Eqb Model.Tracker Model.TrackerWire Model.TrackerGhost Judge.E3
+  Proofs.TrackerProofs Proofs.E3SpecProofs Proofs.TrackerGhostProofs.
 Import ListNotations.
 Open Scope Z_scope.
 
@@ -118,6 +118,92 @@ Example C08_snapshot_replica_inhabited :
   /\ lookup 0 (fst (xrun [] (h1 ++ h2))) = Some [(2, 15); (4, 15)].
 Proof. vm_compute. repeat split. left. reflexivity. Qed.
 
+
+(* ---------- the history theorems (ghost state: Model/TrackerGhost.v) ---------- *)
+(* Every tracked request carries, as ghost fields, its birth index and the PIECES merged into it:
+   each filed range (a,b) with its own recorded progress point c (a at filing, max c f after every
+   accepted update f of that request).  [piece_rng pc] = (max a c, b) is what the piece still asks
+   for.  The ghost fields are never read: the ghost run erases to the plain run. *)
+
+(* C08_never_lost, for ALL histories (any mix of filings, updates raising or lowering from,
+   completions, cancel-alls, received snapshots, refused calls), both readings of a range:
+   (1) ghost run = plain run; (2) NOTHING IS LOST: every live piece, from its progress point
+   onward, is covered by the tracked ranges; (3) every live piece was filed for that partition in
+   this history (by AddRecoveryRequest or as an element of a received snapshot) and its progress
+   point never precedes its from. *)
+Theorem C08_never_lost : forall h,
+  let g := grun ginit h in
+  let s := fst (trun [] h) in
+  erase g = s
+  /\ (forall p x pc, In pc (pieces_of p g) ->
+        (in_req x (piece_rng pc) = true -> covered s p x = true)
+        /\ (in_req_oc x (piece_rng pc) = true -> covered_oc s p x = true))
+  /\ (forall p pc, In pc (pieces_of p g) ->
+        In (pc_from pc, pc_to pc) (filed_on p h) /\ pc_from pc <= pc_clip pc).
+Proof. exact never_lost. Qed.
+
+(* "... until completed or cancelled": through any single operation a live piece stays live (same
+   filed range, same request by birth index, progress point not lowered) unless the operation is a
+   cancel-all, a snapshot received for that partition, or a completion naming the to of the request
+   holding it.  (A refused call, an update, a filing, anything on another partition: it stays.) *)
+Theorem C08_live_until_completed_or_cancelled : forall g o p r pc,
+  In r (glk p (g_ents g)) -> In pc (g_pieces r) ->
+  survives (gstep g o) p r pc
+  \/ o = CancelAll \/ (exists rs, o = Receive p rs) \/ o = Complete p (g_to r).
+Proof. exact piece_until. Qed.
+
+(* NOTHING IS INVENTED, for every history whose accepted updates never move from backwards
+   ([mono_hist], evaluated along the run; the recovery consumer only issues such updates - E4):
+   every covered offset lies in a live piece, from that piece's progress point onward.  Together
+   with C08_never_lost: cover = union of live pieces from their progress points onward. *)
+Theorem C08_nothing_invented : forall h,
+  mono_hist [] h = true ->
+  let g := grun ginit h in
+  let s := fst (trun [] h) in
+  forall p x,
+    (covered s p x = true -> exists pc, In pc (pieces_of p g) /\ in_req x (piece_rng pc) = true)
+    /\ (covered_oc s p x = true -> exists pc, In pc (pieces_of p g) /\ in_req_oc x (piece_rng pc) = true).
+Proof. exact nothing_invented. Qed.
+
+(* the hypothesis is satisfiable by a history with a three-way merge, a raising update, a refused
+   update, a completion and a received snapshot ... *)
+Example C08_mono_hist_inhabited :
+  let h := [Add 0 0 5; Add 0 10 15; Add 0 4 12; Update 0 3 12; Update 0 9 99; Add 1 1 2;
+            Receive 2 [(5, 6); (8, 9)]; Complete 0 12] in
+  mono_hist [] h = true
+  /\ fst (trun [] h) = [(0, [(4, 15)]); (1, [(1, 2)]); (2, [(5, 6); (8, 9)])]
+  /\ map piece_rng (pieces_of 0 (grun ginit h)) = [(10, 15); (4, 12)].
+Proof. vm_compute. repeat split. Qed.
+
+(* ... and it is needed: an update that LOWERS from makes the tracker cover offsets nobody filed
+   (UpdateRecoveryRequest stores whatever from it is given).  Not a defect with respect to C08,
+   whose updates are PROGRESS updates; stated so that nobody mistakes the hypothesis for a gap. *)
+Example C08_lowering_update_invents_cover :
+  let h := [Add 0 10 20; Update 0 5 20] in
+  mono_hist [] h = false
+  /\ covered (fst (trun [] h)) 0 7 = true
+  /\ forall pc, In pc (pieces_of 0 (grun ginit h)) -> in_req 7 (piece_rng pc) = false.
+Proof. vm_compute. repeat split. intros pc [<-|[]]. reflexivity. Qed.
+
+(* completion names requests by their to: after a three-way merge two requests can end at the same
+   offset and one MarkRecoveryComplete removes both, including the part [0,4) of the second one
+   that the head request (4,15) never covered (DESIGN.md section 9: an observation about the
+   tracker's interface, relevant to C07/C09; C08's "affects only the request it names" holds with
+   "names" = "ends at to"). *)
+Example C08_completion_removes_every_request_ending_at_to :
+  let h := [Add 0 10 15; Add 0 0 5; Add 0 4 15] in
+  fst (trun [] h) = [(0, [(4, 15); (0, 15)])]
+  /\ fst (trun [] (h ++ [Complete 0 15])) = [(0, [])].
+Proof. vm_compute. split; reflexivity. Qed.
+
+(* the oldest outstanding request is the one offered for work: GetRecoveryRequest returns the first
+   request of the list, and in every reachable state the births increase strictly along every list *)
+Theorem C08_head_is_oldest : forall h p,
+  let g := grun ginit h in
+  get (fst (trun [] h)) p = match glk p (g_ents g) with r :: _ => Some (erase_req r) | [] => None end
+  /\ forall r rest, glk p (g_ents g) = r :: rest -> Forall (fun r' => (g_birth r < g_birth r')%nat) rest.
+Proof. exact head_is_oldest. Qed.
+
 (* the decision procedure evaluated on the implementation's observations accepts the model on
    EVERY history *)
 Theorem C08_spec_sound : forall i, spec_c08 i (model_obs i) = [].
@@ -136,4 +222,8 @@ Print Assumptions C08_change_is_broadcast.
 Print Assumptions C08_replica_holds_last.
 Print Assumptions C08_compaction_equivalent.
 Print Assumptions C08_snapshot_replica.
+Print Assumptions C08_never_lost.
+Print Assumptions C08_live_until_completed_or_cancelled.
+Print Assumptions C08_nothing_invented.
+Print Assumptions C08_head_is_oldest.
 Print Assumptions C08_spec_sound.
